@@ -29,16 +29,38 @@ class C30(S.SchedCheck):
                    "other asyncio tasks cannot reach scheduler state (they act on a disjoint world in the model; none are scheduled in the harness run)",
                    "asyncio.SelectorEventLoop, CPython 3.12"] + S.SchedCheck.assumptions
     rule = ("all profiles of the family (mixed ops faults time plain: extend/remove ops, raise/kbint/failing enter, nesting, limits incl. 0/negative/non-multiples) + timing profiles of C03 "
-            "+ family corpus; every case is run twice on the real code (do, ado); ~a quarter of the cases reach the program through a history / other entry point (schedt.run_var variants), ~18% are HISTORIES of 2-3 runs on ONE Doist object (limit given as an argument or not at all — sticky —, new doers= / none, tyme= or continuing, stale deeds from a hand-made enter() without exit()), executed all-through-do, all-through-ado and alternating, every run compared pairwise (oracle only, driver answers (unmodelled)); another quarter additionally fix a cycle j at whose await a second asyncio task cancels the ado task.  non-trivial = as C01 or >= 10 recur events; distinct by request line")
+            "+ family corpus; every case is run twice on the real code (do, ado); ~a quarter of the cases reach the program through a history / other entry point (schedt.run_var variants), ~12% are points of the constructor x call-argument GRID (temp None/False/True on both sides, limit/tyme given or defaulted incl. 0, doers at construction or at the call, real, a doer re-setting Doist.limit in mid run) run with doers that log the injected temp / tock / tymth (oracle only); ~18% are HISTORIES of 2-3 runs on ONE Doist object (limit given as an argument or not at all — sticky —, new doers= / none, tyme= or continuing, stale deeds from a hand-made enter() without exit()), executed all-through-do, all-through-ado and alternating, every run compared pairwise (oracle only, driver answers (unmodelled)); another quarter additionally fix a cycle j at whose await a second asyncio task cancels the ado task.  non-trivial = as C01 or >= 10 recur events; distinct by request line")
+
+    focus = ()
 
     def extract(self):
-        return XS.extract()
+        out = XS.extract()
+        self.focus = tuple(T.skeleton_focus())      # non-empty only when ado's skeleton no longer normalises to do's
+        return out
+
+    def grid_case(self, rng):
+        f = rng.choice(self.focus) if self.focus and rng.random() < 0.8 else None
+        g = dict(T.gen_grid(rng, f))
+        if f == "temp":          # the full constructor x call grid of the temp flag, doers without a temp of their own
+            g["c_temp"], g["a_temp"] = rng.choice([None, False, True]), rng.choice(["omit", None, False, True])
+            g["doers"] = [(d[0], rng.choice([None, None, False]), d[2], d[3]) for d in g["doers"]]
+        elif f == "limit":
+            g["c_limit"] = rng.choice([None, 0, 2 * g["tock"], 0.5])
+            g["a_limit"] = rng.choice(["omit", None, 0, 3 * g["tock"], 0.3])
+            g["c_tyme"] = rng.choice([0.0, 0.4, 0.3])
+        elif f == "tyme":
+            g["a_tyme"] = rng.choice(["omit", 0, 0.0, 0.4, 2.5])
+        elif f == "doers":
+            g["c_doers"], g["a_doers"] = True, rng.random() < 0.5
+        return ("grid", tuple(sorted(g.items())))
 
     # a case is a run case ("run", ...), ("cancel", j, <run case>): the same program with the ado task cancelled at its (j+1)-th await,
     # or ("seq", (start1, limit1), <run case>): the doer objects were run before under another Doist; the SECOND runs (do / ado) are observed
     @staticmethod
     def base(case):
-        return case[2] if case[0] in ("cancel", "seq", "var", "hist") else case
+        if case[0] == "grid":
+            return ("run", dict(case[1])["tock"], 0.0, None, [], [])
+        return T.compile_waiters(case[2] if case[0] in ("cancel", "seq", "var", "hist") else case)
 
     def generate(self, rng, n, tier):
         for _ in range(n):
@@ -50,6 +72,9 @@ class C30(S.SchedCheck):
             else:
                 c = S.gen_case(rng, rng.choice(self.profiles))
             k = rng.random()
+            if rng.random() < (0.5 if self.focus else 0.12):
+                yield self.grid_case(rng)
+                continue
             if k > 0.82 and len(c) == 6 and not S.has_always(list(c[5]) + list(c[4])):
                 yield ("hist", T.gen_steps(rng, c), c)
             elif k < 0.25 and not S.unmodelled(c):
@@ -65,6 +90,7 @@ class C30(S.SchedCheck):
             + [("seq", (float(c[2]) + 5.0, 2.5 * float(c[1])), c) for c in T.TIMING_CORPUS] \
             + [("hist", [tuple(st) for st in steps], c) for steps in self.HIST_CORPUS_STEPS
                for c in (T.F46_WITNESS, T.TIMING_CORPUS[4], ("run", 1.0, 0.0, None, [], [T._lf(1, [0.0] * 9), T._lf(2, [0.0] * 9, "plain"), T._lf(3, [2.0] * 4, "genrecur")]))] \
+            + self.grid_corpus() \
             + [("var", v, c) for c in (T.F46_WITNESS, T.TIMING_CORPUS[3], T.DEGENERATE_CORPUS[0]) for v in
                (("same", (5.0, 2.5, 2.0)), ("faulted-first", (5.0, 4.0)), ("wound", (50.0,)), ("ints",), ("iter",), ("init",), ("call",), ("manual",), ("opts",))]
 
@@ -75,15 +101,37 @@ class C30(S.SchedCheck):
         [("first", None, None, "enter-recur"), ("all", 4.0, None, None)],
     )
 
+    def grid_corpus(self):
+        base = dict(tock=0.1, real=False, c_tyme=0.0, c_limit=None, c_temp=None, c_doers=False, a_doers=True, a_limit="omit", a_tyme="omit",
+                    a_temp="omit", doers=[("doer", None, 3, 0.0), ("fn", None, 2, 0.0), ("group", None, 2, 0.0)], setlimit=None)
+        out = []
+        for ct in (None, False, True):             # full constructor x call grid of temp
+            for at in ("omit", None, False, True):
+                out.append(dict(base, c_temp=ct, a_temp=at))
+        long = [("fn", None, 40, 0.0), ("doer", None, 40, 0.0)]
+        out.append(dict(base, c_limit=0.5, setlimit=(2, 1.0), doers=long))       # a doer re-sets Doist.limit in mid run: later,
+        out.append(dict(base, c_limit=1.0, setlimit=(2, 0.3), doers=long))       # earlier,
+        out.append(dict(base, a_limit=0.3, a_tyme=0.4, setlimit=(1, None), doers=long))   # or to None
+        out.append(dict(base, tock=0.3, a_limit=0.6, a_tyme=0.3))    # non-dyadic limit boundary away from tyme 0
+        out.append(dict(base, c_doers=True, a_doers=False, c_limit=0, a_limit="omit"))
+        out.append(dict(base, tock=0.001, real=True, a_limit=0.004, doers=[("fn", None, 2, 0.0)]))
+        return [("grid", tuple(sorted(g.items()))) for g in out]
+
     def request(self, case):
-        if case[0] == "hist":
+        if case[0] in ("hist", "grid"):
             return ("unmodelled",)
         if case[0] == "cancel":
-            return T.request_head("adocancel", case[2], ("cancel", case[1]))
+            return T.request_head("adocancel", self.base(case), ("cancel", case[1]))
         return T.request_head("doado", self.base(case))
 
     def run_impl(self, case):
+        with T.waiters():
+            return self._run_impl(case)
+
+    def _run_impl(self, case):
         T.settle_heap()
+        if case[0] == "grid":
+            return T.GridObs(T.run_grid(case[1], "do"), T.run_grid(case[1], "ado"))
         if case[0] == "hist":
             steps, c = case[1], case[2]
             n = len(steps)
@@ -104,6 +152,26 @@ class C30(S.SchedCheck):
                 yield ("cancel", j, case[2])
             for c in super().shrink(case[2]):
                 yield ("cancel", case[1], c)
+        elif case[0] == "grid":
+            g = dict(case[1])
+            simpler = dict(c_tyme=0.0, c_limit=None, c_temp=None, c_doers=False, a_doers=True, a_limit="omit", a_tyme="omit", a_temp="omit",
+                           setlimit=None, real=False)
+            for k, v in simpler.items():
+                if g[k] != v and not (k == "a_doers" and not g["c_doers"]):
+                    g2 = dict(g)
+                    g2[k] = v
+                    if g2["c_doers"] or g2["a_doers"]:
+                        yield ("grid", tuple(sorted(g2.items())))
+            if len(g["doers"]) > 1:
+                for k in range(len(g["doers"])):
+                    g2 = dict(g)
+                    g2["doers"] = g["doers"][:k] + g["doers"][k + 1:]
+                    yield ("grid", tuple(sorted(g2.items())))
+            for k, d in enumerate(g["doers"]):
+                if d[0] != "fn" or d[2] > 1 or d[3] != 0.0:
+                    g2 = dict(g)
+                    g2["doers"] = g["doers"][:k] + [("fn", d[1], 1, 0.0)] + g["doers"][k + 1:]
+                    yield ("grid", tuple(sorted(g2.items())))
         elif case[0] == "hist":
             steps = list(case[1])
             for k in range(len(steps)):
@@ -120,16 +188,16 @@ class C30(S.SchedCheck):
         elif case[0] in ("seq", "var"):
             yield case[2]
             for c in super().shrink(case[2]):
-                if T.op_free(c) or (case[0] == "var" and case[1][0] not in T.HISTORY_VARIANTS):
+                if T.var_ok(("seq", case[1]) if case[0] == "seq" else case[1], c):
                     yield (case[0], case[1], c)
         else:
             yield from super().shrink(case)
 
     def mutate(self, rng, case):
-        if case[0] == "hist":
-            return []
+        if case[0] in ("hist", "grid"):
+            return [self.grid_case(rng) for _ in range(40)] if self.focus else []
         if case[0] in ("seq", "var"):
-            return [(case[0], case[1], c) for c in super().mutate(rng, case[2]) if T.op_free(c) and T.fault_free(c) and not S.unmodelled(c)]
+            return [(case[0], case[1], c) for c in super().mutate(rng, case[2]) if T.var_ok(("seq", case[1]) if case[0] == "seq" else case[1], c) and not S.unmodelled(c)]
         if case[0] == "cancel":
             return [("cancel", case[1], c) for c in super().mutate(rng, case[2]) if not S.unmodelled(c)]
         return super().mutate(rng, case)
@@ -143,6 +211,13 @@ class C30(S.SchedCheck):
             f.append("cancel:" + ("delivered" if obs.b["raised"] == "cancelled" else "run-ended-first"))
         if case[0] in ("seq", "var"):
             f.append("variant:" + ("seq" if case[0] == "seq" else case[1][0]))
+        if case[0] == "grid":
+            g = dict(case[1])
+            f += ["grid", "grid:c_temp=%r,a_temp=%r" % (g["c_temp"], g["a_temp"]), "grid:real=%r" % g["real"],
+                  "grid:limit ctor=%s call=%s" % ("none" if g["c_limit"] is None else "set", g["a_limit"] if g["a_limit"] in ("omit", None) else "set"),
+                  "grid:doers ctor=%r call=%r" % (g["c_doers"], g["a_doers"])]
+            if g["setlimit"]:
+                f.append("grid:doer-resets-doist-limit-in-mid-run")
         if case[0] == "hist":
             f.append("history:%d-runs" % len(case[1]))
             if any(st[3] for st in case[1]):
@@ -152,6 +227,8 @@ class C30(S.SchedCheck):
         return f
 
     def oracle(self, case, obs):
+        if case[0] == "grid":
+            return T.c30_grid_clauses(obs.a, obs.b)
         if case[0] == "hist":
             return T.c30_hist_clauses(obs.runs)
         if case[0] == "cancel":
